@@ -11,6 +11,12 @@
 //	                                       of the round are pending
 //	probe <method> <x|r>                   hold c.Lock() (x) or c.RLock() (r) in the harness and
 //	                                       call the method from another goroutine
+//	typed <hu|ht|sb> <cap> <op>...         the same g/p operations on the instantiations the three
+//	                                       users of the cache have: hu LRUCache[common.Hash,uint]
+//	                                       (dot/sync request de-dup), ht LRUCache[common.Hash,[]time.Time]
+//	                                       (rate limiter: value n = a slice of n time stamps),
+//	                                       sb LRUCache[string,[]byte] (trie node cache: value n = its
+//	                                       minimal big-endian bytes); key k = hash / string of k
 //	shape <method>                         the critical-section shape of the method, read from
 //	                                       lru_cache.go with go/parser (see c35Shape)
 //	ops:  g:<k>   Get(k)      p:<k>:<v>   Put(k,v)     d   dump (harness, under c.Lock())
@@ -51,6 +57,7 @@ import (
 	"time"
 
 	vu "github.com/ChainSafe/gossamer/internal/verifutil"
+	"github.com/ChainSafe/gossamer/lib/common"
 )
 
 type c35Cache = LRUCache[uint64, uint64]
@@ -374,9 +381,89 @@ func c35Shape(method string) string {
 	return "missing"
 }
 
+func c35Hash(k uint64) common.Hash {
+	var h common.Hash
+	for i := 0; i < 8; i++ {
+		h[31-i] = byte(k >> (8 * i))
+	}
+	return h
+}
+
+func c35Bytes(v uint64) []byte {
+	var b []byte
+	for v > 0 {
+		b = append([]byte{byte(v)}, b...)
+		v >>= 8
+	}
+	return b
+}
+
+func c35UnBytes(b []byte) uint64 {
+	var v uint64
+	for _, x := range b {
+		v = v<<8 | uint64(x)
+	}
+	return v
+}
+
+// c35Typed runs g/p operations on one of the instantiations the users of the cache have.
+func c35Typed(kind string, capacity uint, ops []string) string {
+	var get func(k uint64) uint64
+	var put func(k, v uint64)
+	switch kind {
+	case "hu":
+		c := NewLRUCache[common.Hash, uint](capacity)
+		get = func(k uint64) uint64 { return uint64(c.Get(c35Hash(k))) }
+		put = func(k, v uint64) { c.Put(c35Hash(k), uint(v)) }
+	case "ht":
+		c := NewLRUCache[common.Hash, []time.Time](capacity)
+		t0 := time.Unix(1700000000, 0)
+		get = func(k uint64) uint64 { return uint64(len(c.Get(c35Hash(k)))) }
+		put = func(k, v uint64) {
+			ts := make([]time.Time, v)
+			for i := range ts {
+				ts[i] = t0.Add(time.Duration(i) * time.Second)
+			}
+			c.Put(c35Hash(k), ts)
+		}
+	case "sb":
+		c := NewLRUCache[string, []byte](capacity)
+		get = func(k uint64) uint64 { return c35UnBytes(c.Get(fmt.Sprintf("node-%x", k))) }
+		put = func(k, v uint64) { c.Put(fmt.Sprintf("node-%x", k), c35Bytes(v)) }
+	default:
+		return "err:badkind"
+	}
+	out := make([]string, 0, len(ops))
+	for _, op := range ops {
+		res := func() (r string) {
+			defer func() {
+				if p := recover(); p != nil {
+					r = "panic"
+				}
+			}()
+			f := strings.Split(op, ":")
+			switch f[0] {
+			case "g":
+				return "v:" + vu.X(get(vu.UnX(f[1])))
+			case "p":
+				put(vu.UnX(f[1]), vu.UnX(f[2]))
+				return "u"
+			}
+			return "badop"
+		}()
+		out = append(out, res)
+	}
+	if len(out) == 0 {
+		return "-"
+	}
+	return strings.Join(out, " ")
+}
+
 func c35Run(in string) string {
 	f := strings.Split(in, " ")
 	switch f[0] {
+	case "typed":
+		return c35Typed(f[1], uint(vu.UnX(f[2])), f[3:])
 	case "shape":
 		return c35Shape(f[1])
 	case "seq":
@@ -519,6 +606,17 @@ func c35Gen(r *vu.RNG, n int, emit func(string)) {
 	nconc := n / 25
 	for i := 0; i < n; i++ {
 		emit(c35GenSeq(r))
+	}
+	// the users' instantiations: the same sequences without dumps
+	for i := 0; i < n/20; i++ {
+		f := strings.Split(c35GenSeq(r), " ")
+		ops := make([]string, 0, len(f))
+		for _, op := range f[2:] {
+			if op != "d" {
+				ops = append(ops, op)
+			}
+		}
+		emit("typed " + []string{"hu", "ht", "sb"}[i%3] + " " + f[1] + " " + strings.Join(ops, " "))
 	}
 	for i := 0; i < nconc && !broken; i++ {
 		emit(c35GenConc(r))
